@@ -196,7 +196,10 @@ func runHistory(w *worker, c Case) outcome {
 		return o
 	}
 	want, got, misplaced := rg.TRows(st)
+	intact, how := rg.Intact()
 	switch {
+	case !intact:
+		o.status, o.kind, o.detail = "violation", "router_state_changed", how
 	case (step.GaeaErr == nil) != (fresh.err == nil) || strings.Join(o.shards, "\n") != fresh.calls:
 		o.status, o.kind = "violation", "plan_differs_after_history"
 		o.detail = fmt.Sprintf("after the prefix the statement is sent as %v (error %v), a fresh router sends [%s] (error %v)", o.shards, step.GaeaErr, strings.ReplaceAll(fresh.calls, "\n", " "), fresh.err)
@@ -914,6 +917,15 @@ func main() {
 			}
 		}
 	out:
+		if ok, how := rg.Intact(); !ok {
+			// the shared router of this worker was damaged by the statement: report it and
+			// continue with a new router
+			c := Case{Layout: it.l.Name(), Tmpl: it.t, Tree: it.tr, Content: []int{}, KeyStmt: -1}
+			feat := features(c, it.l, "router_state_changed")
+			c.SQL = prep.sql
+			r.Violation(ev.Witness{Summary: fmt.Sprintf("[%s] %s: %s", c.Layout, prep.sql, how), Features: feat, Case: c})
+			delete(w.rigs, it.l.Name())
+		}
 		r.Add("evaluations", nEval)
 		r.Add("held", nOK)
 		r.Add("statements_rejected_at_build", nRejB)
